@@ -382,6 +382,17 @@ def _byte_range_and_dead_arms(ctx, rep, tier):
              model.is_subclass(raised_class(i.body[-1]) or "", "NMFUError") for i in strip_doc(ru.body))
     rep.check(ok, "C15.m", "RegexMatch._convert_raw_regex_unimportant", "regex atoms above 0xff are refused",
               "`/€/` compares the input byte with 8364; `/[a-€]/` silently matches every byte from `a` to 0xff")
+    # character constants (F-121): the arm that returns the source character itself checks it against the byte range first
+    cc = model.func("ParseCtx._convert_char_const")
+    okc = False
+    for i in ast.walk(cc):
+        if isinstance(i, ast.If) and ast.unparse(i.test) == "len(char_const) == 3":
+            guards = [st for st in i.body if isinstance(st, ast.If) and re.fullmatch(r"ord\(char_const\[1\]\) > (255|0xff)", ast.unparse(st.test).replace("0xff", "255").replace("255", "255")) is not None
+                      and isinstance(st.body[-1], ast.Raise) and model.is_subclass(raised_class(st.body[-1]) or "", "NMFUError")]
+            rets = [st for st in i.body if isinstance(st, ast.Return)]
+            okc = bool(guards) and bool(rets) and i.body.index(guards[0]) < i.body.index(rets[0]) and ast.unparse(rets[0].value) == "char_const[1]"
+    rep.check(okc, "C15.m", "ParseCtx._convert_char_const", "a character constant above 0xff is refused",
+              "`'€'` denotes 8364 (appended as a character it stores the byte 0xac) while strings and regexes refuse the same character: a literal spells bytes")
     rep.rule("C15.n", "no arm of an if/elif chain over one expression is shadowed by an earlier arm (constant subsumption)")
     n = 0
     for q, f in model.functions.items():
